@@ -307,6 +307,13 @@ def detection_case(obs, rng, ctx, spec, pending):
     obs.expect(name == model.expected_class, 'generated dataset is handled by its own convention',
                lambda: {'got': name, 'want': model.expected_class}, mech='detection-rule')
     pending.append((dict(spec), name))
+    if rng.random() < 0.5:
+        # the accessor has been used on the ORIGINAL before anything is derived from it: what it remembers (on the dataset
+        # object, in its encoding, anywhere) must not travel to datasets derived from it whose content differs
+        with quiet_warnings():
+            bound = obs.call('dataset.ems (original, before deriving near-misses)', lambda: ds.ems)
+        if not isinstance(bound, Failed):
+            obs.cls('detect:accessor-used-before-deriving')
     revisit = []
     for label, edited in near_misses(model, ds, rng, ctx.thorough):
         if not ds.identical(reference):
